@@ -24,6 +24,15 @@ type vfC05Case struct {
 	Closer    bool    `json:"closer"`
 	LateEnq   int     `json:"late_enq"` // items enqueued after GracefulClose returned (must never run)
 	Choices   []int   `json:"choices"`  // schedule: k-th decision picks enabled[Choices[k] % len(enabled)]
+	// Backlog, when set, selects the backlog scenario instead (see vfC05Backlog): rounds of
+	// "enqueue a batch, then let some items run".
+	Backlog []vfC05Round `json:"backlog,omitempty"`
+}
+
+type vfC05Round struct {
+	Enq      int   `json:"enq"`      // items enqueued by the controller in this round
+	Permits  int   `json:"permits"`  // items allowed to run to completion before the next round
+	Children []int `json:"children"` // Children[k%len]: children enqueued by the k-th item of the round when it runs
 }
 
 type vfC05Event struct {
@@ -188,8 +197,13 @@ func vfC05Exec(v *vfT, c vfC05Case) *vfC05Result {
 		defer ops.mu.Unlock()
 		return ops.busyCh == nil
 	})
+	// (only the exported-to-the-package accessors are used for the queue contents, so that the check
+	// does not depend on how the pending items are stored)
+	stranded := 0
+	if !ops.IsEmpty() {
+		stranded = 1
+	}
 	ops.mu.Lock()
-	stranded := ops.ops.Len()
 	worker := ops.busyCh != nil
 	ops.mu.Unlock()
 	if worker {
@@ -335,10 +349,164 @@ func vfC05Running(a *vfActors, prefix string) bool {
 	return false
 }
 
-func vfC05Run(v *vfT, c vfC05Case) { vfC05Exec(v, c) }
+func vfC05Run(v *vfT, c vfC05Case) {
+	if len(c.Backlog) > 0 {
+		vfC05Backlog(v, c)
+		return
+	}
+	vfC05Exec(v, c)
+}
+
+// vfC05Backlog drives a bare operations queue through rounds of "enqueue a batch while the worker
+// is held inside an item, then let some items run".  Every item first waits for a permit, so all
+// enqueues are totally ordered by the controller and the expected run order is the model FIFO.
+func vfC05Backlog(v *vfT, c vfC05Case) {
+	flag := &atomic.Bool{}
+	ops := newOperations(flag, func() {})
+	permits := make(chan struct{}, 4096)
+	finished := make(chan string, 4096)
+	var mu sync.Mutex
+	var ran []string    // run order (bodies)
+	var model []string  // model FIFO: expected run order, appended at enqueue time
+	var running atomic.Int32
+	serialBroken := false
+	var mkItem func(id string, children int) operation
+	mkItem = func(id string, children int) operation {
+		return func() {
+			<-permits
+			if running.Add(1) != 1 {
+				mu.Lock()
+				serialBroken = true
+				mu.Unlock()
+			}
+			mu.Lock()
+			ran = append(ran, id)
+			mu.Unlock()
+			for k := 0; k < children; k++ {
+				cid := fmt.Sprintf("%s.c%d", id, k)
+				mu.Lock()
+				model = append(model, cid)
+				mu.Unlock()
+				ops.Enqueue(mkItem(cid, 0))
+			}
+			running.Add(-1)
+			finished <- id
+		}
+	}
+	done := 0 // items that have run to completion
+	maxBacklog, grewWithOffset := 0, false
+	for ri, r := range c.Backlog {
+		for k := 0; k < r.Enq; k++ {
+			id := fmt.Sprintf("r%d.%d", ri, k)
+			ch := 0
+			if len(r.Children) > 0 {
+				ch = r.Children[k%len(r.Children)]
+			}
+			mu.Lock()
+			model = append(model, id)
+			pending := len(model) - done
+			mu.Unlock()
+			ops.Enqueue(mkItem(id, ch))
+			if pending > maxBacklog {
+				maxBacklog = pending
+			}
+			if pending >= 8 && done > 0 {
+				grewWithOffset = true
+			}
+		}
+		for p := 0; p < r.Permits; p++ {
+			mu.Lock()
+			pending := len(model) - done
+			mu.Unlock()
+			if pending == 0 {
+				break
+			}
+			permits <- struct{}{}
+			select {
+			case <-finished:
+				done++
+			case <-time.After(20 * time.Second):
+				v.Violation("C05/backlog/stuck", "an item that was given its permit did not run within 20s (round %d, %d done)\n%s", ri, done, vfPionStacks())
+				return
+			}
+		}
+	}
+	// let everything else run, then Done must return
+	for {
+		mu.Lock()
+		pending := len(model) - done
+		mu.Unlock()
+		if pending == 0 {
+			break
+		}
+		permits <- struct{}{}
+		select {
+		case <-finished:
+			done++
+		case <-time.After(20 * time.Second):
+			mu.Lock()
+			v.Violation("C05/backlog/item-lost", "%d queued items never ran (ran %d of %d); first missing %s", pending, len(ran), len(model), vfC05FirstDiff(model, ran))
+			mu.Unlock()
+			return
+		}
+	}
+	doneCh := make(chan struct{})
+	go func() { ops.Done(); close(doneCh) }()
+	select {
+	case <-doneCh:
+	case <-time.After(20 * time.Second):
+		v.Violation("C05/backlog/done-hangs", "Done did not return after every item had run")
+	}
+	// a spurious extra run would consume no permit; give it a moment to show up
+	select {
+	case id := <-finished:
+		v.Violation("C05/backlog/ran-twice", "item %s ran although every enqueued item had already run once", id)
+	case <-time.After(vfSettleInterval):
+	}
+	mu.Lock()
+	defer mu.Unlock()
+	if maxBacklog > 32 {
+		v.Label("backlog>32")
+	}
+	if grewWithOffset {
+		v.Label("backlog-after-earlier-items-ran")
+		v.NonTrivial()
+	}
+	if serialBroken {
+		v.Violation("C05/not-serial", "two queued items ran at the same time (backlog scenario)")
+	}
+	seen := map[string]int{}
+	for _, id := range ran {
+		seen[id]++
+		if seen[id] > 1 {
+			v.Violation("C05/ran-twice", "item %s ran %d times (backlog scenario)", id, seen[id])
+		}
+	}
+	if len(ran) != len(model) {
+		v.Violation("C05/backlog/item-lost", "%d items enqueued, %d ran; %s", len(model), len(ran), vfC05FirstDiff(model, ran))
+	}
+	for i := range model {
+		if ran[i] != model[i] {
+			v.Violation("C05/order", "backlog scenario: position %d ran %s, queued order says %s (max backlog %d)", i, ran[i], model[i], maxBacklog)
+		}
+	}
+	ops.GracefulClose()
+}
+
+func vfC05FirstDiff(model, ran []string) string {
+	for i := range model {
+		if i >= len(ran) {
+			return fmt.Sprintf("position %d: expected %s, nothing ran", i, model[i])
+		}
+		if ran[i] != model[i] {
+			return fmt.Sprintf("position %d: expected %s, ran %s", i, model[i], ran[i])
+		}
+	}
+	return "no difference in the common prefix"
+}
 
 var vfC05Opts = vfOpts{
-	Rule: "schedules of a closed scenario on a bare operations queue (enqueuers x items with children, Done waiters, one GracefulClose, late enqueues); the controller picks among enabled actor steps and goroutines parked at ops.run/ops.idle/ops.exit; non-trivial = an actor step is taken while the worker is parked in the hand-off window (after its last empty pop, before the deferred restart) or GracefulClose is called while an item is pending",
+	Rule: "schedules of a closed scenario on a bare operations queue (enqueuers x items with children, Done waiters, one GracefulClose, late enqueues); the controller picks among enabled actor steps and goroutines parked at ops.run/ops.idle/ops.exit; non-trivial = an actor step is taken while the worker is parked in the hand-off window (after its last empty pop, before the deferred restart) or GracefulClose is called while an item is pending; backlog scenario (rounds of batch enqueue / partial drain with the worker held inside an item): non-trivial = at least 8 items pending after earlier items had already run",
 	Assumptions: []string{"interleavings are explored at the verif yield points only (ops.run, ops.idle, ops.exit) plus the order of actor steps",
 		"a settle interval decides when a goroutine counts as parked; it affects which schedule is explored, not the soundness of the verdict"},
 }
@@ -361,6 +529,25 @@ func TestVerif_C05_Sampled(t *testing.T) {
 			c.LateEnq = rapid.IntRange(0, 2).Draw(v.R, "late")
 		}
 		c.Choices = rapid.SliceOfN(rapid.IntRange(0, 11), 10, 60).Draw(v.R, "choices")
+		return c
+	}, vfC05Run)
+}
+
+// TestVerif_C05_Backlog: deep backlogs (tens of pending items) after earlier items already ran.
+func TestVerif_C05_Backlog(t *testing.T) {
+	vfProperty(t, "C05", vfC05Opts, func(v *vfT) vfC05Case {
+		var c vfC05Case
+		nr := rapid.IntRange(1, 5).Draw(v.R, "rounds")
+		for r := 0; r < nr; r++ {
+			var rd vfC05Round
+			rd.Enq = rapid.SampledFrom([]int{0, 1, 2, 5, 9, 17, 31, 32, 33, 40, 64, 65, 90}).Draw(v.R, "enq")
+			rd.Permits = rapid.SampledFrom([]int{0, 1, 2, 3, 7, 16, 31, 33, 50, 200}).Draw(v.R, "permits")
+			rd.Children = rapid.SliceOfN(rapid.SampledFrom([]int{0, 0, 0, 0, 1, 2}), 1, 4).Draw(v.R, "children")
+			c.Backlog = append(c.Backlog, rd)
+		}
+		if c.Backlog[0].Enq == 0 {
+			c.Backlog[0].Enq = 3
+		}
 		return c
 	}, vfC05Run)
 }
